@@ -42,7 +42,7 @@ Definition g_id : cfg := variant (mask [d_id_runs; d_dollar]).
 Definition g_text : cfg := variant (mask [d_ctrl_chars; d_escapes]).
 Definition g_bytes : cfg := variant (mask [d_bytes_raw; d_bsqual_case]).
 Definition g_blank : cfg := variant (mask [d_ctrl_chars]).
-Definition g_ctl : cfg := variant (mask [d_cborseq]).
+Definition g_ctl : cfg := abnf_spec.       (* since 8d55c20 the control operators have no known deviation *)
 
 (* control operators: every registered name, every name with one more letter, every name without its last letter *)
 Definition ctl_probe : list (list N) :=
@@ -110,8 +110,6 @@ Definition deviation_witnesses : list (N * list N * bool) := [
   (d_bytes_raw, s2n "a = 'it\'s'", false);
   (d_bytes_raw, s2n "a = 'a\qb'", true);
   (d_bsqual_case, s2n "a = H'00'", false);
-  (d_cborseq, s2n "a = bstr .cborseq b", false);
-  (d_cborseq, s2n "a = b .sizefoo", true);
   (d_radix_float, s2n "a = 0b1.5", false);
   (d_bytes_key, s2n "a = { 'a': int }", false);
   (d_implicit_ws, s2n "a <t> = [t]", true);
